@@ -560,6 +560,17 @@ def binop(I, op, a, b):
         return a * b
     if t is ast.Mult and isinstance(b, (list, tuple)) and isinstance(a, int):
         return a * b
+    if (isinstance(a, SymSet) and isinstance(b, (set, frozenset))) or (isinstance(b, SymSet) and isinstance(a, (set, frozenset))):
+        def _lift(s):                       # a concrete set of ints next to a symbolic one
+            if isinstance(s, SymSet):
+                return s
+            arr = EMPTY
+            for e in s:
+                if not (isinstance(e, int) or is_sym_int(e)):
+                    raise Unsupported("set operation between a symbolic set and a set of non-integers")
+                arr = z3.Store(arr, to_z3(e), True)
+            return SymSet(arr)
+        a, b = _lift(a), _lift(b)
     if isinstance(a, SymSet) and isinstance(b, SymSet):
         if t is ast.BitAnd:
             return SymSet(z3.SetIntersect(a.arr, b.arr))
